@@ -594,6 +594,43 @@ func init() {
 		}
 		return nil
 	}
+	// sync.Pool: a last-in first-out free list per Pool variable; Get falls back to the New function
+	stubs["(*sync.Pool).Put"] = func(m *Machine, fr *frame, fn *ssa.Function, a []Val) Val {
+		p, _ := a[0].(*Val)
+		if p == nil {
+			m.rtPanic(fr, "nil pointer dereference (sync.Pool)")
+		}
+		if m.syncPools == nil {
+			m.syncPools = map[*Val][]Val{}
+		}
+		if iv, ok := a[1].(Iface); ok && iv.T == nil {
+			return nil // Put(nil) is ignored
+		}
+		m.syncPools[p] = append(m.syncPools[p], a[1])
+		return nil
+	}
+	stubs["(*sync.Pool).Get"] = func(m *Machine, fr *frame, fn *ssa.Function, a []Val) Val {
+		p, _ := a[0].(*Val)
+		if p == nil {
+			m.rtPanic(fr, "nil pointer dereference (sync.Pool)")
+		}
+		if items := m.syncPools[p]; len(items) > 0 {
+			v := items[len(items)-1]
+			m.syncPools[p] = items[:len(items)-1]
+			return v
+		}
+		// the New field is the last field of sync.Pool
+		st, _ := (*p).(Struct)
+		recv := fn.Signature.Recv().Type().(*types.Pointer).Elem().Underlying().(*types.Struct)
+		for i := 0; i < recv.NumFields(); i++ {
+			if recv.Field(i).Name() == "New" && i < len(st) && st[i] != nil {
+				if c, isNil := st[i].(*Closure); !isNil || c != nil {
+					return m.call(fr, token.NoPos, st[i], nil)
+				}
+			}
+		}
+		return Iface{}
+	}
 	stubs["(*sync.WaitGroup).Add"] = nop
 	stubs["(*sync.WaitGroup).Done"] = nop
 	stubs["(*sync.WaitGroup).Wait"] = nop
@@ -659,7 +696,9 @@ func init() {
 	bufAppend := func(m *Machine, fr *frame, a Val, add []Val) {
 		f := bufField(m, fr, a)
 		s, _ := (*f).(Slice)
-		*f = append(append(Slice{}, s...), add...)
+		// in place while the capacity lasts (as bytes.Buffer does): after a Reset the old bytes are overwritten, and
+		// whatever still points into them sees the new content
+		*f = appendVals(s, append([]Val{}, add...))
 	}
 	stubs["(*bytes.Buffer).Write"] = func(m *Machine, fr *frame, fn *ssa.Function, a []Val) Val {
 		s, _ := a[1].(Slice)
@@ -694,7 +733,11 @@ func init() {
 	}
 	stubs["(*bytes.Buffer).Reset"] = func(m *Machine, fr *frame, fn *ssa.Function, a []Val) Val {
 		f := bufField(m, fr, a[0])
-		*f = Slice(nil)
+		if s, ok := (*f).(Slice); ok && s != nil {
+			*f = s[:0] // keeps the storage, as bytes.Buffer does
+		} else {
+			*f = Slice(nil)
+		}
 		return nil
 	}
 
